@@ -54,6 +54,10 @@ def main(argv):
     mode = argv[2]
     seed = int(os.environ.get("VERIF_SEED", "1"))
     t0 = time.time()
+    if mode == "--gen":
+        with common.BuildLock():
+            print(common.gen_and_build_model())
+        return 0
     unit = importlib.import_module("units." + prop.lower())
     if mode == "--replay":
         with common.BuildLock():
